@@ -1760,6 +1760,10 @@ func (s *Store) ExecuteTransaction(transaction *Transaction) error {
 		updateCountsPerDataset[k] = newItems
 	}
 
+	if err := verifhook.Fault("txn.commit"); err != nil {
+		return err
+	}
+
 	// new ids are asserted in the rolling id transaction of the store owning the datasets. That is not s
 	// when s is a contextual copy of the store (NewContextualStore), which has its own idtxn field.
 	// commit the owning store's id transaction, so that ids are committed before the data referring to them.
